@@ -230,7 +230,7 @@ def pairs_covering(ref, n):
 
 
 def _work(chunk):
-    acc = par.Acc()
+    acc = dw.Acc()
     for dag, do_transpose, max_ren in chunk:
         n = len(dag)
         ref = dw.Ref(dag)
@@ -303,7 +303,7 @@ def _real(chunk):
     """Same plans from a real repository's graph, rebase_todo, and execution with rebase()."""
     from breezy.branch import Branch
     from breezy.plugins.rewrite import rebase as R
-    acc = par.Acc()
+    acc = dw.Acc()
     for dag in chunk:
         n = len(dag)
         ref = dw.Ref(dag)
@@ -401,7 +401,7 @@ def replay(ctx, data):
     if "stop" not in d:
         return True
     dag = tuple(tuple(p) for p in d["dag"])
-    acc = par.Acc()
+    acc = dw.Acc()
     graph, _ = _graph(dag)
     check_simple_plan(acc, dw.Ref(dag), graph, d["tip"], d["onto"], d["stop"], d["start"], d["skip_full_merged"],
                       "dict", todo_from=None if d["todo_from"] == d["stop"] else d["todo_from"])
@@ -421,7 +421,7 @@ def run(ctx):
     acc = par.merge(par.pmap(_work, items, seed=ctx.seed, chunks_per_job=8))
     real_items = [d for n in range(2, NR + 1) for d in gen.dags(n)]
     acc2 = par.merge(par.pmap(_real, real_items, seed=ctx.seed, chunks_per_job=8))
-    acc3 = par.Acc()
+    acc3 = dw.Acc()
     _state_roundtrip(acc3)
     # determinism audit: the first dags twice
     a1 = _work(items[:25])
